@@ -60,7 +60,6 @@ def run(ctx: Ctx, pid: str, extended: bool = False) -> None:
 # --------------------------------------------------------------------------------------
 
 def _c04(ctx, ad, cfg, env, runner, rng, drv, mult):
-    acts = ad.all_actions(env)
     episodes = budget(ctx, 4, 20) * mult
     recs = [r for r in rollouts(ad, env, runner, rng, episodes) if not r["reset"] and not ad.is_terminal_state(env, r["state"], r["ts_prev"])]
     seen = set()
@@ -95,26 +94,50 @@ def _c04(ctx, ad, cfg, env, runner, rng, drv, mult):
             a = int(bad[0])
             ctx.fail(ad.name, "mask_vs_rules",
                      f"mask[{a}]={bool(impl_mask[a])} but the rules say legal={bool(legal[a])}",
-                     _replay(ad, cfg, r, env, action_index=a, action=ad.ser_action(env, acts[a]),
-                             impl_mask=impl_mask.tolist(), legal=legal.tolist()))
+                     _replay(ad, cfg, r, env, mask_index=a, impl_mask=impl_mask.tolist(), legal=legal.tolist()))
         if (m1 != impl_mask).any():
             ctx.disagree(ad.name, "L1 mask != implementation mask", _replay(ad, cfg, r, env, model_mask=m1.tolist(), impl_mask=impl_mask.tolist()))
         if (m1 != legal).any():
             ctx.disagree(ad.name, "L1 mask != L2 legal inside the model (theorem mask_iff_legal would be false here)", _replay(ad, cfg, r, env))
         ctx.sample({"env": ad.name, "config": cfg.cid, "mask": impl_mask.astype(int).tolist()[:32], "legal": legal.astype(int).tolist()[:32]})
-        # the environment's own reaction to every action of this state
-        if n < fan_cap and len(acts) <= 4096 and hasattr(ad, "reaction_invalid"):
-            s2s, tss = runner.fan(r["state"], acts)
-            for a in range(len(acts)):
-                inv = ad.reaction_invalid(env, r["state"], acts[a], tree_index(s2s, a), tree_index(tss, a))
+        # the environment's own reaction to every action of this state (vs the rules, via the step op's "valid")
+        if n < fan_cap and hasattr(ad, "reaction_invalid"):
+            fa = ad.fan_actions(env, r["state"], r["ts_prev"], rng, cap=budget(ctx, 256, 4096))
+            s2s, tss = runner.fan(r["state"], fa)
+            sreps = drv.batch([_req(ad, "step", cfg, state=js, action=ad.ser_action(env, a),
+                                    **_draw_kw(ad, env, r["state"], a, tree_index(s2s, i), tree_index(tss, i)))
+                               for i, a in enumerate(fa)])
+            for i, (a, m) in enumerate(zip(fa, sreps)):
+                if isinstance(m, DriverError):
+                    ctx.disagree(ad.name, f"model rejects a fan-out case: {m}", _replay(ad, cfg, r, env, action=ad.ser_action(env, a)))
+                    break
+                inv = ad.reaction_invalid(env, r["state"], a, tree_index(s2s, i), tree_index(tss, i))
                 if inv is None:
                     continue
                 ctx.evaluations += 1
-                if bool(inv) != (not bool(legal[a])):
+                model_inv = _negate(m["valid"])
+                if _jsonable_eq(inv, model_inv) is False:
                     ctx.fail(ad.name, "reaction_vs_rules",
-                             f"environment treated action {a} as {'invalid' if inv else 'valid'} but the rules say legal={bool(legal[a])}",
-                             _replay(ad, cfg, r, env, action_index=a, action=ad.ser_action(env, acts[a])))
+                             f"environment treated action {ad.ser_action(env, a)} as invalid={inv} but by the rules invalid={model_inv}",
+                             _replay(ad, cfg, r, env, action=ad.ser_action(env, a)))
                     break
+
+
+def _draw_kw(ad, env, s, a, s2, ts2):
+    d = ad.draw(env, s, a, s2, ts2)
+    return {} if d is None else {"draw": d}
+
+
+def _negate(v):
+    if isinstance(v, list):
+        return [_negate(x) for x in v]
+    return not bool(v)
+
+
+def _jsonable_eq(a, b):
+    a = np.asarray(a).astype(bool).reshape(-1)
+    b = np.asarray(b).astype(bool).reshape(-1)
+    return a.shape == b.shape and bool((a == b).all())
 
 
 # --------------------------------------------------------------------------------------
@@ -122,38 +145,35 @@ def _c04(ctx, ad, cfg, env, runner, rng, drv, mult):
 # --------------------------------------------------------------------------------------
 
 def _transition_cases(ctx, ad, cfg, env, runner, rng, episodes, fan_states, only_illegal, drv):
-    """(rec, action_idx, action, s2, ts2) for rollout transitions plus the full fan-out of some states"""
-    acts = ad.all_actions(env)
+    """(rec, action, s2, ts2) for rollout transitions plus the fan-out of some states"""
     cases = []
     fan_left = fan_states
     for r in rollouts(ad, env, runner, rng, episodes, post_terminal=1):
         if r["reset"]:
             continue
         if not only_illegal:
-            cases.append((r, r["action_idx"], r["action"], r["next"], r["ts"]))
-        if fan_left > 0 and len(acts) <= 4096 and not r.get("post_terminal") and rng.random() < 0.5:
+            cases.append((r, r["action"], r["next"], r["ts"]))
+        if fan_left > 0 and not r.get("post_terminal") and rng.random() < 0.5:
             fan_left -= 1
-            s2s, tss = runner.fan(r["state"], acts)
-            idx = range(len(acts))
+            fa = ad.fan_actions(env, r["state"], r["ts_prev"], rng, cap=64 if not only_illegal else 512)
+            s2s, tss = runner.fan(r["state"], fa)
+            idx = list(range(len(fa)))
             if only_illegal:
-                st = drv.batch([_req(ad, "state", cfg, state=ad.ser_state(env, r["state"]))])[0]
-                if isinstance(st, DriverError):
-                    continue
-                legal = np.array(st["legal"], dtype=bool).reshape(-1)
-                idx = np.flatnonzero(~legal)
+                js = ad.ser_state(env, r["state"])
+                reps = drv.batch([_req(ad, "step", cfg, state=js, action=ad.ser_action(env, a),
+                                       **_draw_kw(ad, env, r["state"], a, tree_index(s2s, i), tree_index(tss, i)))
+                                  for i, a in enumerate(fa)])
+                idx = [i for i, m in enumerate(reps) if not isinstance(m, DriverError) and not np.all(np.asarray(m["valid"]).astype(bool))]
                 if len(idx) > 64:
-                    idx = rng.choice(idx, 64, replace=False)
-            elif len(acts) > 64:
-                idx = rng.choice(len(acts), 64, replace=False)
-            for a in idx:
-                a = int(a)
-                cases.append((r, a, acts[a], tree_index(s2s, a), tree_index(tss, a)))
+                    idx = list(rng.choice(idx, 64, replace=False))
+            for i in idx:
+                cases.append((r, fa[int(i)], tree_index(s2s, int(i)), tree_index(tss, int(i))))
     return cases
 
 
 def _compare_step(ctx, ad, cfg, env, cases, drv, what, fields_ts=("step_type", "reward", "discount"), as_failure=False):
     reqs = []
-    for (r, ai, a, s2, ts2) in cases:
+    for (r, a, s2, ts2) in cases:
         js = ad.ser_state(env, r["state"])
         q = _req(ad, "step", cfg, state=js, action=ad.ser_action(env, a))
         d = ad.draw(env, r["state"], a, s2, ts2)
@@ -161,7 +181,7 @@ def _compare_step(ctx, ad, cfg, env, cases, drv, what, fields_ts=("step_type", "
             q["draw"] = d
         reqs.append(q)
     reps = drv.batch(reqs)
-    for (r, ai, a, s2, ts2), q, m in zip(cases, reqs, reps):
+    for (r, a, s2, ts2), q, m in zip(cases, reqs, reps):
         ctx.evaluations += 1
         if isinstance(m, DriverError):
             ctx.disagree(ad.name, f"{what}: model rejects the case: {m}", {"request": q})
@@ -173,7 +193,7 @@ def _compare_step(ctx, ad, cfg, env, cases, drv, what, fields_ts=("step_type", "
         mts = {k: v for k, v in m["ts"].items() if k in fields_ts}
         d += diff_json(mts, impl_ts, path="ts")
         key = (ad.name, state_key(q["state"]), str(q["action"]))
-        if impl_state != q["state"]:
+        if impl_state != q["state"] or what == "illegal action":
             ctx.nontrivial.add(key)
         ctx.count(f"{ad.name}.step_type_{impl_ts['step_type']}")
         if d:
@@ -191,9 +211,9 @@ def _compare_step(ctx, ad, cfg, env, cases, drv, what, fields_ts=("step_type", "
 def _judge(ctx, ad, cfg, env, cases, drv, keys, kind_prefix):
     """Lean-defined predicates evaluated on implementation transitions (always-on search)"""
     reqs = [_req(ad, "judge", cfg, state=ad.ser_state(env, r["state"]), action=ad.ser_action(env, a),
-                 next=ad.ser_state(env, s2), ts=ad.ser_ts(env, ts2)) for (r, ai, a, s2, ts2) in cases]
+                 next=ad.ser_state(env, s2), ts=ad.ser_ts(env, ts2)) for (r, a, s2, ts2) in cases]
     reps = drv.batch(reqs)
-    for (r, ai, a, s2, ts2), q, v in zip(cases, reqs, reps):
+    for (r, a, s2, ts2), q, v in zip(cases, reqs, reps):
         if isinstance(v, DriverError):
             ctx.disagree(ad.name, f"judge rejects an implementation transition: {v}", {"request": q})
             continue
@@ -261,7 +281,7 @@ def _c06(ctx, ad, cfg, env, runner, rng, drv, mult):
 def _c07(ctx, ad, cfg, env, runner, rng, drv, mult):
     _state_preds(ctx, ad, cfg, env, runner, rng, drv, None, budget(ctx, 6, 40) * mult, ["consistent"], "consistent")
     if "judge" in ad.ops:
-        cases = [(r, r["action_idx"], r["action"], r["next"], r["ts"]) for r in rollouts(ad, env, runner, rng, budget(ctx, 3, 20) * mult)
+        cases = [(r, r["action"], r["next"], r["ts"]) for r in rollouts(ad, env, runner, rng, budget(ctx, 3, 20) * mult)
                  if not r["reset"] and int(r["ts"].step_type) != 2]
         _judge(ctx, ad, cfg, env, cases, drv, ["conserved"], "conserved")
 
@@ -273,7 +293,6 @@ def _c07(ctx, ad, cfg, env, runner, rng, drv, mult):
 def _c08(ctx, ad, cfg, env, runner, rng, drv, mult):
     import jax
 
-    acts = ad.all_actions(env)
     episodes = budget(ctx, 6, 40) * mult
     partner = None
     if cfg.meta.get("partner") is not None:
@@ -294,12 +313,7 @@ def _c08(ctx, ad, cfg, env, runner, rng, drv, mult):
         actions = []
         t = 0
         while int(ts.step_type) != 2 and t < cap:
-            mask = ad.flat_mask(env, s, ts.observation) if ad.has_mask else None
-            if hasattr(ad, "legal_choice"):
-                ai = ad.legal_choice(env, s, ts, pol, rng)
-            else:
-                ai = envlib.choose(pol, rng, mask, len(acts), t)
-            a = acts[ai]
+            a = np.asarray(ad.choose_action(env, s, ts, pol, rng, t))
             actions.append(ad.ser_action(env, a))
             s, ts = runner.step(s, a)
             ret += np.asarray(ts.reward, dtype=np.float64)
@@ -360,3 +374,70 @@ def _c12(ctx, ad, cfg, env, runner, rng, drv, mult):
                      _replay(ad, cfg, r, env, observed_state=ad.ser_state(env, s), impl_obs=impl_obs, expected_obs=st["obs"]))
     if todo:
         ctx.sample({"env": ad.name, "config": cfg.cid, "obs_keys": sorted(ad.ser_obs(env, todo[0][2].observation).keys())})
+
+
+# --------------------------------------------------------------------------------------
+# C11 (structural horizon part) — environments without a time limit end within their horizon
+# --------------------------------------------------------------------------------------
+
+def _c11(ctx, ad, cfg, env, runner, rng, drv, mult):
+    if not hasattr(ad, "horizon"):
+        return
+    h = int(ad.horizon(env))
+    episodes = budget(ctx, 6, 30) * mult
+    lens = []
+    for pol in (MASKED + ["uniform", "adversarial"]):
+        t_last = None
+        for r in rollouts(ad, env, runner, rng, max(1, episodes // 5), policies=[pol], max_steps=h + 3):
+            if r["reset"]:
+                if t_last is not None:
+                    lens.append(t_last)
+                t_last = None
+                seed = r["seed"]
+                continue
+            ctx.evaluations += 1
+            if int(r["ts"].step_type) == 2 and t_last is None:
+                t_last = r["t"] + 1
+                ctx.nontrivial.add((ad.name, cfg.cid, seed))
+            if r["t"] + 1 > h and t_last is None:
+                ctx.fail(ad.name, "horizon_exceeded", f"episode still running after {r['t'] + 1} steps; structural horizon is {h}",
+                         {"env": ad.name, "config": cfg.cid, "reset_seed": seed, "policy": pol, "horizon": h})
+                break
+        if t_last is not None:
+            lens.append(t_last)
+    ctx.sample({"env": ad.name, "config": cfg.cid, "horizon": h, "episode_lengths": lens[:12]})
+
+
+# --------------------------------------------------------------------------------------
+# C10 — generated instances satisfy their certificates; generators depend on the key
+# --------------------------------------------------------------------------------------
+
+def _c10(ctx, ad, cfg, env, runner, rng, drv, mult):
+    import jax
+
+    if "instance" not in ad.ops:
+        return
+    n = budget(ctx, 40, 400) * mult
+    n = min(n, cfg.meta.get("max_instances", n))
+    seeds = [int(x) for x in rng.integers(1 << 31, size=n)]
+    states = [runner.reset(jax.random.PRNGKey(sd))[0] for sd in seeds]
+    js = [ad.ser_state(env, s) for s in states]
+    reps = drv.batch([_req(ad, "instance", cfg, state=j) for j in js])
+    distinct = set()
+    for sd, j, v in zip(seeds, js, reps):
+        ctx.evaluations += 1
+        if isinstance(v, DriverError):
+            ctx.disagree(ad.name, f"instance op rejects a generated instance: {v}", {"config": cfg.cid, "seed": sd})
+            continue
+        k = state_key(j)
+        distinct.add(k)
+        ctx.nontrivial.add((ad.name, k))
+        for name, ok in v.items():
+            if ok is False:
+                ctx.fail(ad.name, f"instance:{name}", f"generated instance violates certificate {name}",
+                         {"env": ad.name, "config": cfg.cid, "reset_seed": sd, "state": j}, {"certificate": name})
+            ctx.count(f"{ad.name}.{name}")
+    if not cfg.meta.get("constant_generator") and n >= 8 and len(distinct) < 2:
+        ctx.fail(ad.name, "generator_constant", f"{n} different keys gave the same instance",
+                 {"env": ad.name, "config": cfg.cid, "seeds": seeds[:8]})
+    ctx.sample({"env": ad.name, "config": cfg.cid, "instances": n, "distinct": len(distinct)})
